@@ -918,7 +918,13 @@ func (e *effectsEngine) fieldFuncValues(f *types.Var) []funcValue {
 // stored in field f (a class-hierarchy style resolution for func-typed fields).
 // Effects on captured variables and on arguments are reported with an unknown root.
 func (e *effectsEngine) FieldCallEffects(f *types.Var) ([]WriteFact, bool) {
-	if facts, ok := e.fieldMemo[f]; ok {
+	return e.fieldCallEffects(f, nil)
+}
+
+// fieldCallEffects: skipWithin, when set, names a region already analysed inline;
+// func literals located inside it are not analysed a second time.
+func (e *effectsEngine) fieldCallEffects(f *types.Var, skipWithin ast.Node) ([]WriteFact, bool) {
+	if facts, ok := e.fieldMemo[f]; ok && skipWithin == nil {
 		return facts, true
 	}
 	if e.fieldMemo == nil {
@@ -934,6 +940,11 @@ func (e *effectsEngine) FieldCallEffects(f *types.Var) ([]WriteFact, bool) {
 		expr := ast.Unparen(v.expr)
 		if isNilIdent(v.pkg.TypesInfo, expr) {
 			continue
+		}
+		if skipWithin != nil && containsNode(skipWithin, expr) {
+			if _, isLit := expr.(*ast.FuncLit); isLit {
+				continue
+			}
 		}
 		env := &funcEnv{eng: e, info: v.pkg.TypesInfo, pkg: v.pkg, params: map[types.Object]int{}, alias: map[types.Object]accessPath{}}
 		if lit, ok := expr.(*ast.FuncLit); ok {
@@ -970,7 +981,9 @@ func (e *effectsEngine) FieldCallEffects(f *types.Var) ([]WriteFact, bool) {
 		}
 	}
 	out = dedupFacts(out)
-	e.fieldMemo[f] = out
+	if skipWithin == nil {
+		e.fieldMemo[f] = out
+	}
 	return out, true
 }
 
@@ -983,7 +996,7 @@ func (env *funcEnv) expandCallsFields() {
 			out = append(out, f)
 			continue
 		}
-		sub, ok := env.eng.FieldCallEffects(f.Final())
+		sub, ok := env.eng.fieldCallEffects(f.Final(), env.body)
 		if !ok {
 			f.Kind = "dynamic:field " + f.Final().Name()
 			f.Root = rootUnknown
